@@ -607,7 +607,10 @@ class Sym:
         if k == "use":
             return self.operand(rv["a"], depth)
         if k == "ref":
-            return ("ref", self.place(rv["p"], depth))
+            inner = self.place(rv["p"], depth)
+            if inner[0] == "deref" and inner[1][0] == "const" and isinstance(inner[1][1], str):
+                return inner[1]  # `&*"literal"`: a reborrow of a string constant is the constant
+            return ("ref", inner)
         if k == "rawptr":
             return ("ref", self.place(rv["p"], depth))
         if k == "binop":
@@ -711,6 +714,68 @@ def walk(e):
 
 _KINDS = {"const", "fn", "arg", "var", "call", "bin", "un", "cast", "agg", "discr", "ref", "field", "deref",
           "len", "unknown", "item", "promoted", "static", "as", "index", "subslice", "closure", "repeat", "indirect"}
+
+
+def eval_expr(e, env, bits=64):
+    """Value of an arithmetic expression tree under `env` (maps rendered leaf expressions such as 'value' or
+    'value.rank' to integers); None when some leaf or operator is not covered.  Used to compare two spellings of one
+    index map over their whole finite domain (`v >> 3` and `v / 8`)."""
+    if not isinstance(e, tuple):
+        return None
+    k = e[0]
+    key = expr_str(e)
+    if key in env:
+        return env[key]
+    mask = (1 << bits) - 1
+    if k == "const" and isinstance(e[1], int):
+        return e[1]
+    if k == "cast":
+        return eval_expr(e[1], env, bits)
+    if k in ("ref", "deref"):
+        return eval_expr(e[1], env, bits)
+    if k == "un":
+        v = eval_expr(e[2], env, bits)
+        if v is None:
+            return None
+        if e[1] == "Not":
+            return (~v) & mask
+        if e[1] == "Neg":
+            return -v
+        return None
+    if k == "bin":
+        a, b = eval_expr(e[2], env, bits), eval_expr(e[3], env, bits)
+        if a is None or b is None:
+            return None
+        op = e[1].replace("WithOverflow", "").replace("Unchecked", "")
+        try:
+            if op == "Add":
+                return a + b
+            if op == "Sub":
+                return a - b
+            if op == "Mul":
+                return a * b
+            if op == "Div":
+                return a // b if b else None
+            if op == "Rem":
+                return a % b if b else None
+            if op == "Shl":
+                return (a << b) & mask
+            if op == "Shr":
+                return a >> b
+            if op == "BitAnd":
+                return a & b
+            if op == "BitOr":
+                return a | b
+            if op == "BitXor":
+                return a ^ b
+        except (ValueError, OverflowError):
+            return None
+        return None
+    if k == "call" and isinstance(e[1], str) and len(e[2]) == 1 and (e[1].endswith("::into") or e[1].endswith("::from") or e[1].endswith("::clone")):
+        if e[1].endswith("::from") and "Square" in e[1]:
+            return None
+        return eval_expr(e[2][0], env, bits)
+    return None
 
 
 def strip_refs(e):
